@@ -351,33 +351,55 @@ package godi
 //@             && callarg("scope.resolve", i, 1) == mk("instanceKey", descriptors[i].Type, descriptors[i].Key, descriptors[i].Group) && callret("scope.resolve", i, 1) == nil
 //
 // ---------------------------------------------------------------------------------------------
+//@ func newScopeWithoutInitializers
+//@   mode conc
+//@   safety[C15,C13,C09]
+//@   nopanic
+//@   requires args: rootProvider != nil
+//@   ensures[C02] fresh_tables: result != nil && fresh(result) && fresh(result.instances) && len(result.instances) == 0 && fresh(result.children) && len(result.children) == 0 && len(result.disposables) == 0 && result.disposed == 0
+//@   ensures[C18,C02] identity: result.rootProvider == rootProvider && result.parentScope == parent && result.cancel == cancel
+//@   ensures[C18] context_carries_scope: result.context != nil && ctxvalue(result.context, box(mk("scopeContextKey"))) == box(result)
+//@   ensures[C18] context_inherits: ctxparent(result.context) == ite(ctx == nil, ctxbackground(), ctx)
+//
+//@ func scope.runInitializers
+//@   mode conc
+//@   interferes
+//@   safety[C15,C13,C09]
+//@   requires args: s != nil && s.rootProvider != nil && s.rootProvider.analyzer != nil
+//@   ghost inits []*Descriptor
+//@   at before loop 1 : ghost inits := initializers
+//@   ensures[C02,C08,C18] initializer_phase_always_runs: ncalls("provider.voidReturnScopedDescriptorsMu.RLock") == 1 && callarg("provider.voidReturnScopedDescriptorsMu.RLock", 0, 0) == old(s.rootProvider)
+//@   ensures[C02] initializers_once_in_order: result == nil ==> ncalls("scope.createInstance") == len(inits)
+//@        && (forall i int :: 0 <= i && i < len(inits) ==> callarg("scope.createInstance", i, 0) == s && callarg("scope.createInstance", i, 1) == inits[i])
+//@   ensures[C15] init_failure_is_classifiable: result != nil ==> typeis(result, "*ResolutionError") && ncalls("scope.createInstance") >= 1
+//@        && wraps(as(result, "*ResolutionError").Cause, callret("scope.createInstance", ncalls("scope.createInstance") - 1, 1))
+//@   ensures[C10,C14] failed_creation_is_cleaned_up: result != nil ==> ncalls("scope.Close") == 1 && callarg("scope.Close", 0, 0, "*scope") == s
+//@   ensures[C10,C14] success_closes_nothing: result == nil ==> ncalls("scope.Close") == 0
+//@   loop 1
+//@     invariant progress: ncalls("scope.createInstance") == idx && s != nil && ncalls("scope.Close") == 0 && initializers == inits
+//@     invariant inits_nonnil: forall i int :: 0 <= i && i < len(initializers) ==> initializers[i] != nil
+//@     invariant in_order: forall i int :: 0 <= i && i < idx ==> callarg("scope.createInstance", i, 0) == s && callarg("scope.createInstance", i, 1) == inits[i] && callret("scope.createInstance", i, 1) == nil
+//
 //@ func newScope
 //@   mode conc
 //@   interferes
 //@   safety[C15,C13,C09]
 //@   requires args: rootProvider != nil && rootProvider.analyzer != nil
-//@   ghost inits []*Descriptor
 //@   ghost made *scope
 //@   at after assign s#1 : ghost made := s
 //@   at after assign s#1 : assert[C02] fresh_tables: fresh(s) && fresh(s.instances) && len(s.instances) == 0 && fresh(s.children) && len(s.children) == 0 && len(s.disposables) == 0 && s.disposed == 0
 //@   at after assign s#1 : assert[C18,C02] identity: s.rootProvider == rootProvider && s.parentScope == parent && s.cancel == cancel
-//@   at before loop 1 : ghost inits := initializers
-//@   at before loop 1 : assert[C18] context_published_before_initializers: s.context != nil && ctxvalue(s.context, box(mk("scopeContextKey"))) == box(s) && ctxparent(s.context) == ite(old(ctx) == nil, ctxbackground(), old(ctx))
-//@   ensures[C02,C08,C18] initializer_phase_always_runs: ncalls("provider.voidReturnScopedDescriptorsMu.RLock") == 1 && callarg("provider.voidReturnScopedDescriptorsMu.RLock", 0, 0) == rootProvider
+//@   at after assign s#1 : assert[C18] context_published_before_initializers: s.context != nil && ctxvalue(s.context, box(mk("scopeContextKey"))) == box(s) && ctxparent(s.context) == ite(old(ctx) == nil, ctxbackground(), old(ctx))
+//@        && ncalls("scope.runInitializers") == 0
+//@   ensures[C02,C08,C18] initializer_phase_always_runs: ncalls("newScopeWithoutInitializers") == 1 && ncalls("scope.runInitializers") == 1 && callarg("scope.runInitializers", 0, 0) == made
+//@        && calltime("newScopeWithoutInitializers", 0) < calltime("scope.runInitializers", 0)
 //@   ensures[C15] value_xor_error: (result1 == nil) <==> (result0 != nil)
 //@   ensures[C02,C18] returns_the_new_scope: result1 == nil ==> result0 == made
 //@   ensures[C02,C18] new_scope_identity: result1 == nil ==> fresh(result0) && result0.rootProvider == rootProvider && result0.parentScope == parent && result0.cancel == cancel
 //@   ensures[C18] context_carries_scope: result1 == nil ==> result0.context != nil && ctxvalue(result0.context, box(mk("scopeContextKey"))) == box(result0)
 //@   ensures[C18] context_inherits: result1 == nil ==> ctxparent(result0.context) == ite(ctx == nil, ctxbackground(), ctx)
-//@   ensures[C02] initializers_once_in_order: result1 == nil ==> ncalls("scope.createInstance") == len(inits)
-//@        && (forall i int :: 0 <= i && i < len(inits) ==> callarg("scope.createInstance", i, 0) == made && callarg("scope.createInstance", i, 1) == inits[i])
-//@   ensures[C15] init_failure_is_classifiable: result1 != nil ==> typeis(result1, "*ResolutionError") && ncalls("scope.createInstance") >= 1
-//@        && wraps(as(result1, "*ResolutionError").Cause, callret("scope.createInstance", ncalls("scope.createInstance") - 1, 1))
-//@   ensures[C10,C14] failed_creation_is_cleaned_up: result1 != nil ==> ncalls("scope.Close") == 1 && callarg("scope.Close", 0, 0, "*scope") == made
-//@   loop 1
-//@     invariant progress: ncalls("scope.createInstance") == idx && s == made && s != nil && ncalls("scope.Close") == 0 && initializers == inits
-//@     invariant inits_nonnil: forall i int :: 0 <= i && i < len(initializers) ==> initializers[i] != nil
-//@     invariant in_order: forall i int :: 0 <= i && i < idx ==> callarg("scope.createInstance", i, 0) == s && callarg("scope.createInstance", i, 1) == inits[i] && callret("scope.createInstance", i, 1) == nil
+//@   ensures[C15,C10,C14] failure_is_the_initializer_failure: result1 != nil ==> result1 == callret("scope.runInitializers", 0, 0)
+//@   ensures[C10,C14] success_means_initializers_succeeded: result1 == nil ==> callret("scope.runInitializers", 0, 0) == nil
 //
 //@ func provider.CreateScope
 //@   mode conc
@@ -781,6 +803,20 @@ package godi
 //
 // a declared dependency that resolution will be able to satisfy (or is allowed to miss)
 //@ pred depRegistered(sc *collection, dep *reflection.Dependency) = dep.Optional || dep.Group != "" || (dep.Type in reservedTypes) || (mk("TypeKey", dep.Type, dep.Key) in sc.services)
+//@ func collection.validateDependencies
+//@   safety[C15,C08]
+//@   requires maps: regmaps(c)
+//@   requires deps_nonnil: forall i int, j int :: 0 <= i && i < len(c.allDescriptors) && c.allDescriptors[i] != nil && 0 <= j && j < len(c.allDescriptors[i].Dependencies) ==> c.allDescriptors[i].Dependencies[j] != nil
+//@   ensures[C08] accepted_means_registered: result == nil ==> (forall i int, j int :: 0 <= i && i < len(c.allDescriptors) && c.allDescriptors[i] != nil && 0 <= j && j < len(c.allDescriptors[i].Dependencies)
+//@        ==> depRegistered(c, c.allDescriptors[i].Dependencies[j]))
+//@   ensures[C08,C15] rejection_names_a_missing_dependency: result != nil ==> typeis(result, "*ResolutionError") && as(result, "*ResolutionError") != nil && as(result, "*ResolutionError").Cause == ErrServiceNotFound
+//@        && (exists i int, j int :: 0 <= i && i < len(c.allDescriptors) && c.allDescriptors[i] != nil && 0 <= j && j < len(c.allDescriptors[i].Dependencies) && !depRegistered(c, c.allDescriptors[i].Dependencies[j])
+//@            && as(result, "*ResolutionError").ServiceType == c.allDescriptors[i].Dependencies[j].Type && as(result, "*ResolutionError").ServiceKey == c.allDescriptors[i].Dependencies[j].Key)
+//@   loop 1
+//@     invariant checked_so_far: forall i int, j int :: 0 <= i && i < idx && c.allDescriptors[i] != nil && 0 <= j && j < len(c.allDescriptors[i].Dependencies) ==> depRegistered(c, c.allDescriptors[i].Dependencies[j])
+//@   loop 2
+//@     invariant checked_this_far: forall j int :: 0 <= j && j < idx ==> depRegistered(c, descriptor.Dependencies[j])
+//
 //@ func collection.doBuild
 //@   safety[C15,C08]
 //@   dead return#3
@@ -797,9 +833,16 @@ package godi
 //@        && (forall k TypeKey :: ((k in p.services) <==> (k in sc.services)) && p.services[k] == sc.services[k])
 //@        && (forall k GroupKey :: ((k in p.groups) <==> (k in sc.groups)) && len(p.groups[k]) == len(sc.groups[k]) && (forall i int :: 0 <= i && i < len(p.groups[k]) ==> p.groups[k][i] == sc.groups[k][i]))
 //@   at after assign p#1 : assert[C04,C01] shares_analyzer_and_graph: p.analyzer == sc.analyzer && p.graph == g && fresh(p) && p.scopes != nil && len(p.scopes) == 0 && p.disposed == 0
-//@   ensures[C08] accepted_means_every_required_dependency_is_registered: result1 == nil ==> (forall i int, j int :: 0 <= i && i < len(sc.allDescriptors) && sc.allDescriptors[i] != nil
+//@   ensures[C08] success_means_dependencies_validated: result1 == nil ==> ncalls("collection.validateDependencies") == 1 && callarg("collection.validateDependencies", 0, 0) == sc && callret("collection.validateDependencies", 0, 0) == nil
+//@   at after call sc.validateDependencies#1 : assert[C08] accepted_means_every_required_dependency_is_registered by(accepted_means_registered): err == nil ==> (forall i int, j int :: 0 <= i && i < len(sc.allDescriptors) && sc.allDescriptors[i] != nil
 //@        && 0 <= j && j < len(sc.allDescriptors[i].Dependencies) ==> depRegistered(sc, sc.allDescriptors[i].Dependencies[j]))
-//@   ensures[C08] root_initializers_run_after_singletons: result1 == nil ==> calltime("provider.createAllSingletonsWithContext", 0) < calltime("newScope", 0)
+//@   ensures[C08,C15] missing_dependency_is_reported_classifiably: ncalls("collection.validateDependencies") == 1 && callret("collection.validateDependencies", 0, 0) != nil ==>
+//@        result0 == nil && typeis(result1, "*BuildError") && as(result1, "*BuildError").Cause == callret("collection.validateDependencies", 0, 0) && ncalls("newScopeWithoutInitializers") == 0
+//@   ensures[C08] root_initializers_run_after_singletons: result1 == nil ==> ncalls("scope.runInitializers") == 1 && callarg("scope.runInitializers", 0, 0) == callret("newScopeWithoutInitializers", 0, 0, "*scope")
+//@        && callret("scope.runInitializers", 0, 0) == nil && calltime("provider.createAllSingletonsWithContext", 0) < calltime("scope.runInitializers", 0)
+//@   ensures[C10,C15] failed_initializer_phase_cleans_up: ncalls("scope.runInitializers") == 1 && callret("scope.runInitializers", 0, 0) != nil ==>
+//@        result0 == nil && ncalls("provider.Close") == 1 && callarg("provider.Close", 0, 0) == built
+//@   ensures[C08] initializers_only_after_successful_singleton_phase: ncalls("scope.runInitializers") <= 1 && (ncalls("scope.runInitializers") == 1 ==> ncalls("provider.createAllSingletonsWithContext") == 1 && callret("provider.createAllSingletonsWithContext", 0, 0) == nil)
 //@   ensures[C15] value_xor_error: (result1 == nil) <==> (result0 != nil)
 //@   ensures[C15] failure_is_build_error: result1 != nil ==> typeis(result1, "*BuildError") && as(result1, "*BuildError") != nil
 //@   ensures[C05,C06] graph_gets_every_registration_in_order: forall c int :: 0 <= c && c < nreg && c < ncalls("graph.DependencyGraph.AddProviderDeferred") ==>
@@ -810,16 +853,16 @@ package godi
 //@   ensures[C05,C06] success_means_every_group_is_a_node: result1 == nil ==> ncalls("newGroupNode") == ncalls("graph.DependencyGraph.AddProviderDeferred") - nreg
 //@        && (forall c int :: 0 <= c && c < ncalls("newGroupNode") ==> callarg("graph.DependencyGraph.AddProviderDeferred", nreg + c, 1) == box(callret("newGroupNode", c, 0, "*groupNode")))
 //@   ensures[C05,C15] cycle_is_reported_classifiably: ncalls("graph.DependencyGraph.DetectCycles") == 1 && callret("graph.DependencyGraph.DetectCycles", 0, 0) != nil ==>
-//@        result0 == nil && typeis(result1, "*BuildError") && as(result1, "*BuildError").Cause == callret("graph.DependencyGraph.DetectCycles", 0, 0) && ncalls("newScope") == 0
+//@        result0 == nil && typeis(result1, "*BuildError") && as(result1, "*BuildError").Cause == callret("graph.DependencyGraph.DetectCycles", 0, 0) && ncalls("newScopeWithoutInitializers") == 0
 //@   ensures[C07] success_means_lifetimes_validated: result1 == nil ==> ncalls("collection.validateLifetimes") == 1 && callarg("collection.validateLifetimes", 0, 0) == sc && callret("collection.validateLifetimes", 0, 0) == nil
 //@   ensures[C07,C15] lifetime_conflict_is_reported_classifiably: ncalls("collection.validateLifetimes") == 1 && callret("collection.validateLifetimes", 0, 0) != nil ==>
-//@        result0 == nil && typeis(result1, "*BuildError") && as(result1, "*BuildError").Cause == callret("collection.validateLifetimes", 0, 0) && ncalls("newScope") == 0
-//@   ensures[C18] root_scope_on_background_context: ncalls("newScope") <= 1 && (ncalls("newScope") == 1 ==> callarg("newScope", 0, 0) == built && callarg("newScope", 0, 1) == nil
-//@        && callarg("newScope", 0, 2) == ctxbackground() && callarg("newScope", 0, 3) == nil)
+//@        result0 == nil && typeis(result1, "*BuildError") && as(result1, "*BuildError").Cause == callret("collection.validateLifetimes", 0, 0) && ncalls("newScopeWithoutInitializers") == 0
+//@   ensures[C18] root_scope_on_background_context: ncalls("newScopeWithoutInitializers") <= 1 && (ncalls("newScopeWithoutInitializers") == 1 ==> callarg("newScopeWithoutInitializers", 0, 0) == built && callarg("newScopeWithoutInitializers", 0, 1) == nil
+//@        && callarg("newScopeWithoutInitializers", 0, 2) == ctxbackground() && callarg("newScopeWithoutInitializers", 0, 3) == nil)
 //@   ensures[C01,C06] singletons_created_after_validation: result1 == nil ==> ncalls("provider.createAllSingletonsWithContext") == 1 && callarg("provider.createAllSingletonsWithContext", 0, 0) == built
 //@        && callret("provider.createAllSingletonsWithContext", 0, 0) == nil && result0 == box(built)
-//@        && calltime("graph.DependencyGraph.DetectCycles", 0) < calltime("collection.validateLifetimes", 0) && calltime("collection.validateLifetimes", 0) < calltime("newScope", 0)
-//@        && calltime("newScope", 0) < calltime("provider.createAllSingletonsWithContext", 0)
+//@        && calltime("graph.DependencyGraph.DetectCycles", 0) < calltime("collection.validateLifetimes", 0) && calltime("collection.validateLifetimes", 0) < calltime("collection.validateDependencies", 0) && calltime("collection.validateDependencies", 0) < calltime("newScopeWithoutInitializers", 0)
+//@        && calltime("newScopeWithoutInitializers", 0) < calltime("provider.createAllSingletonsWithContext", 0)
 //@   ensures[C10,C15] failed_singleton_phase_cleans_up: ncalls("provider.createAllSingletonsWithContext") == 1 && callret("provider.createAllSingletonsWithContext", 0, 0) != nil ==>
 //@        result0 == nil && ncalls("provider.Close") == 1 && callarg("provider.Close", 0, 0) == built
 //@   ensures[C15] failed_singleton_phase_is_classifiable: ncalls("provider.createAllSingletonsWithContext") == 1 && callret("provider.createAllSingletonsWithContext", 0, 0) != nil && callret("provider.Close", 0, 0) == nil ==>
